@@ -34,7 +34,7 @@ COMPONENTS = {
     'stub': ['joblib.Parallel (SimParallel)', 'user objective/constraints (harness world)', 'time.time', 'uuid1'],
 }
 PROBES_EXPECTED = ['maximised_objective', 'constraint_pairs', 'reeval_same_batch', 'mixed_batch', 'scalar_points',
-                   'sweep_parallel', 'parallel_batches', 'store_attached', 'foreign_lock', 'reloaded_session']
+                   'sweep_parallel', 'parallel_batches', 'store_attached', 'foreign_lock', 'reloaded_session', 'inside_process_backend_context']
 
 
 class Shadow:
@@ -136,7 +136,7 @@ def _batch(D):
         ctx.probe('store_attached')
     alg = W.dummy_algorithm(w, workers=workers)
     sh = Shadow(ctx, w)
-    nops = 1 + D.dec('cfg', 'nops', 6)
+    nops = 1 + D.size('cfg', 'nops', 6)
     known = []
     held = []       # keeps read-back designs alive: the shadow model is keyed by object identity
     kinds = []
@@ -161,7 +161,16 @@ def _batch(D):
             x = W.gen_vector(w, D, 'work', ('sx', o))
             n0 = len(w.problem.individuals)
             with W.quiet():
-                ret = alg.evaluator.evaluate_scalar(x)
+                try:
+                    ret = alg.evaluator.evaluate_scalar(x)
+                except (kernel.Deadlock, kernel.StepCap, kernel.Livelock):
+                    raise
+                except Exception as e:
+                    if type(e).__name__ == 'HarnessError':
+                        raise
+                    ctx.violation('unexpected_exception', 'Evaluator.evaluate_scalar', 'evaluate_scalar(%r) raised %r although the '
+                                  'objective never failed' % (list(x), e))
+                    break
             sh.absorb()
             _check_scalar(ctx, sh, w, x, ret, n0)
             continue
@@ -181,7 +190,13 @@ def _batch(D):
             from .. import seams
             seams.take_foreign_lock(sim, db, (3.0, 12.0, 31.0, 70.0)[D.dec('fault', ('foreign_hold', o), 4)])
             ctx.probe('foreign_lock')
-        with W.quiet():
+        from .. import seams as _seams
+        # the caller may itself sit inside `with joblib.parallel_backend('loky')` (user code that uses joblib elsewhere):
+        # the library's workers must still share the designs with the caller
+        outer = _seams.backend_context('loky' if (workers > 1 and D.dec('fault', ('outer_backend', o), 4) == 1) else None)
+        if outer.name:
+            ctx.probe('inside_process_backend_context')
+        with W.quiet(), outer:
             try:
                 alg.evaluate(batch)
             except (kernel.Deadlock, kernel.StepCap):
